@@ -35,13 +35,15 @@ fn guarded<R>(f: impl FnOnce() -> R) -> Result<R, String> {
 
 // ---- covering configuration alphabet ---------------------------------------------------------------
 /// (wide, depth, ss, full, matrix, transfer, primaries): every value of every dimension occurs.
-const YCFG: [(bool, u8, (u8, u8), bool, MC, TC, CP); 6] = [
+const YCFG: [(bool, u8, (u8, u8), bool, MC, TC, CP); 7] = [
     (false, 8, (0, 0), false, MC::BT709, TC::BT1886, CP::BT709),
     (true, 10, (1, 1), true, MC::BT2020NonConstantLuminance, TC::PerceptualQuantizer, CP::BT2020),
     (true, 16, (1, 0), false, MC::YCgCo, TC::HybridLogGamma, CP::Film),
     (false, 8, (2, 2), true, MC::ST170M, TC::SRGB, CP::BT709),
     (true, 10, (0, 0), false, MC::BT470M, TC::Logarithmic100, CP::BT470M),
     (true, 12, (0, 1), true, MC::ST240M, TC::Logarithmic316, CP::ST428),
+    // a matrix derived from the primaries (constant-luminance family)
+    (true, 10, (0, 0), true, MC::ICtCp, TC::PerceptualQuantizer, CP::BT2020),
 ];
 const RCFG: [(TC, CP); 6] = [
     (TC::BT1886, CP::BT709),
@@ -422,7 +424,7 @@ impl Model for Seq {
 fn inits(tier_thorough: bool) -> Vec<St> {
     let mut v = vec![];
     let code = |p: usize, i: usize, max: u32| (((p * 83 + i * 37 + 11) as u32) % (max + 1)) as u16;
-    for (ci, (w, h)) in [(0usize, (2u8, 2u8)), (1, (4, 4)), (2, (4, 2)), (3, (4, 4)), (4, (3, 3)), (5, (2, 4))] {
+    for (ci, (w, h)) in [(0usize, (2u8, 2u8)), (1, (4, 4)), (2, (4, 2)), (3, (4, 4)), (4, (3, 3)), (5, (2, 4)), (6, (1, 3))] {
         let c = ycfg(ci);
         let max = (1u32 << c.bit_depth) - 1;
         let (cw, ch) = ((w as usize) >> c.subsampling_x, (h as usize) >> c.subsampling_y);
@@ -532,7 +534,7 @@ fn main() {
     let det_ok = u1 == u2 || !c1.discoveries().is_empty();
     let lin_actions: Vec<String> = {
         let mut a = vec![];
-        m.actions(&m.inits[6], &mut a);
+        m.actions(&m.inits[7], &mut a);
         a.iter().map(act_str).collect()
     };
     let sample_state = format!("{:?}", m.inits[1]).chars().take(300).collect::<String>();
@@ -544,7 +546,7 @@ fn main() {
         "worst": {},
         "samples": [{"engine":"stateright BFS","initial_state_example": sample_state, "actions_from_a_LinearRgb_state": lin_actions}],
         "violations": viols,
-        "bound": format!("all call sequences of depth <= {} over {} initial images (6 YUV frames covering every subsampling/depth/storage of the covering config alphabet; float images 2x2, 3x1, 3x3{} over special values) with actions = every public conversion x covering config alphabet (6 YUV configs, 6 RGB label pairs), Rewrap through the public constructor, and at most {} Poke deviation (NaN, +-inf, -3e38, 1e-40 through data_mut())", m.max_depth, m.inits.len(), if thorough {", 4x4"} else {""}, m.max_devs),
+        "bound": format!("all call sequences of depth <= {} over {} initial images (7 YUV frames covering every subsampling/depth/storage of the covering config alphabet; float images 2x2, 3x1, 3x3{} over special values) with actions = every public conversion x covering config alphabet (7 YUV configs, 6 RGB label pairs), Rewrap through the public constructor, and at most {} Poke deviation (NaN, +-inf, -3e38, 1e-40 through data_mut())", m.max_depth, m.inits.len(), if thorough {", 4x4"} else {""}, m.max_devs),
         "exhaustive": true,
         "rule": "stateright explicit-state BFS; next_state rebuilds the real image, runs the real conversion inside catch_unwind and serialises the result; always-properties: no unsafe-precondition hook fires, no conversion panics, every reached image keeps its dimensions, every reached YUV image holds only valid codes and re-wraps, borrowed sources stay unmodified",
         "assumptions": ["depth and deviation bounds as stated; the full configuration product is covered stage by stage by engine E1"],
